@@ -12,6 +12,9 @@ CHECKS = {
     "C05": conn_checks.check_C05,
     "C06": conn_checks.check_C06,
     "C07": client_checks.check_C07,
+    "C10": data_checks.check_C10,
+    "C11": data_checks.check_C11,
+    "C12": data_checks.check_C12,
     "C13": listen_checks.check_C13,
     "C14": listen_checks.check_C14,
     "C15": listen_checks.check_C15,
